@@ -548,6 +548,31 @@ class FnRewriter:
                             % (self.fnkey, name, len(hits)))
         return hits[0], match_close(toks, hits[0])
 
+    def find_block_of_if(self, cond):
+        """R7c: (open, close) of the body block of `if COND {` (plain if, not `if let`)."""
+        toks = self.sf.toks
+        want = re.sub(r'\s+', '', cond)
+        hits = []
+        for j in range(self.bo + 1, self.e):
+            t = toks[j]
+            if t.kind == 'ident' and t.text == 'if':
+                k = j + 1
+                while toks[k].kind in ('ws', 'comment'):
+                    k += 1
+                if toks[k].kind == 'ident' and toks[k].text == 'let':
+                    continue
+                b = k
+                while b < self.e and not (toks[b].kind == 'punct' and toks[b].text == '{'):
+                    if toks[b].kind == 'punct' and toks[b].text in '([':
+                        b = match_close(toks, b)
+                    b += 1
+                text = ''.join(x.text for x in toks[k:b] if x.kind not in ('ws', 'comment'))
+                if text == want:
+                    hits.append(b)
+        if len(hits) != 1:
+            raise Undecided('%s: expected exactly one `if %s {`, found %d' % (self.fnkey, cond, len(hits)))
+        return hits[0], match_close(toks, hits[0])
+
     def find_block_of_if_let(self, scrutinee):
         """R7c: (open, close) of the body block of `if let PAT = SCRUTINEE {`."""
         toks = self.sf.toks
@@ -919,6 +944,34 @@ class FnRewriter:
                         self.log.append({'rule': 'R2', 'fn': self.fnkey, 'line': line,
                                          'what': '%s!(..) -> fmt_opaque()' % t.text})
                         out('fmt_opaque()' + _nl(full), j)
+                        j = mc + 1
+                        continue
+                    if t.text in WRITE_MACROS and 'R2t' in rw:
+                        # R2t (opt-in): `write!(sink, "LIT", args..)` ==> `write_tagged(sink, 0x<H>u64)` where H is
+                        # the first 15 hex digits of SHA-256 of the format literal's source text (plus "\n" marker
+                        # for writeln!).  The rendered text stays opaque, but a unit can pin WHICH literal is
+                        # written where: an edited format string gets another tag.
+                        sink = first_macro_arg(toks, mo + 1, mc)
+                        rest = [x for x in toks[mo + 1:mc] if x.kind not in ('ws', 'comment')]
+                        lit = None
+                        depth = 0
+                        for qi, x in enumerate(rest):
+                            if x.kind == 'punct' and x.text in rustlex.OPEN:
+                                depth += 1
+                            elif x.kind == 'punct' and x.text in rustlex.CLOSE:
+                                depth -= 1
+                            elif x.kind == 'punct' and x.text == ',' and depth == 0:
+                                if qi + 1 < len(rest) and rest[qi + 1].kind == 'str':
+                                    lit = rest[qi + 1].text
+                                break
+                        if lit is None:
+                            raise Undecided('%s: R2t needs a string literal as the format of %s! at line %d'
+                                            % (self.fnkey, t.text, line))
+                        tag = hashlib.sha256((lit + ('\n' if t.text == 'writeln' else '')).encode()).hexdigest()[:15]
+                        self.log.append({'rule': 'R2t', 'fn': self.fnkey, 'line': line,
+                                         'what': '%s!(%s, %s, ..) -> write_tagged(%s, 0x%su64)'
+                                                 % (t.text, sink, ' '.join(lit.split())[:60], sink, tag)})
+                        out('write_tagged(%s, 0x%su64)' % (self._map_paths_text(sink, pathmap), tag) + _nl(full), j)
                         j = mc + 1
                         continue
                     if t.text in WRITE_MACROS and 'R2' in rw:
@@ -2547,6 +2600,18 @@ def build(unit_dir, repo, canary=False, auto_off=None, oracle=None):
                 open_impl = header
             lifted = None
             wrap = None
+            if 'block_of_if' in it:
+                # R7c (third form): the body block of the plain `if COND {` whose condition text (whitespace
+                # removed) is COND becomes a fn; the lifted fn's contract may therefore assume COND.
+                if 'sig' not in it or 'key' not in it:
+                    raise Undecided('block item needs "sig" and "key": %r' % it)
+                cbo, ce = FnRewriter(sf, fn_item, fnkey, None, unit, []).find_block_of_if(it['block_of_if'])
+                fn_item = ('fn', it['key'], cbo, ce, cbo)
+                lifted = it['sig']
+                wrap = it.get('wrap')
+                log.append({'rule': 'R7c', 'fn': fnkey, 'line': sf.line_of(sf.toks[cbo].start),
+                            'what': 'body of `if %s` of %s::%s lifted to `%s`' % (
+                                it['block_of_if'], it.get('impl', ''), it['fn'], it['sig'])})
             if 'block_of_field' in it or 'block_of_if_let' in it:
                 # R7c block-lift by name: the brace block that initialises the struct-literal field NAME
                 # (`NAME: { .. }`), resp. the body block of the `if let PAT = SCRUTINEE { .. }` whose scrutinee
